@@ -16,21 +16,21 @@ import (
 func init() {
 	Register(&Rule{
 		ID: "C40", Section: "5 C40",
-		Technique: "guard/value-flow analysis of flow.take arguments (min-chains through phis), who-may-write/who-may-call censuses, refund pairing by dominance and path queries, package-local call graph for serve-goroutine affinity, explicit-panic census on the frame path",
+		Technique: "guard/value-flow analysis of flow.take arguments (min-chains through phis), must-pass path search with pruning of edges that contradict established guards (stream id recorded before any rejection), who-may-write/who-may-call censuses, refund pairing by dominance and path queries, package-local call graph for serve-goroutine affinity, explicit-panic census on the frame path",
 		Meta: core.Meta{
 			Level: "other",
 			Explanation: "Decides structural necessary conditions in bfe_spdy (server_process_frame.go, server_flow_control.go, server_write_sched.go, server_conn.go, flow.go): " +
 				"(take-guard) every flow.take(n) is reached only with n <= available() of the same flow established (a dominating comparison, or n built as a min-chain of available() through `if x < n { n = x }` clamps); the inbound violation returns StreamError{FLOW_CONTROL_ERROR}; " +
 				"(flow-census, add-checked) flow.n is written only by take/add with their guards, take is called only from processData and takeFrom, every add on a live flow has its overflow result tested and turned into an error or panic; " +
 				"(refund, announce-account) noteBodyRead refunds the connection window on every path and the stream window with the same n, sendWindowUpdate splits into increments <= 2^31-1, sendWindowUpdate32 announces exactly the amount it adds to the window of the level it names, bytes taken but not delivered to the body pipe are refunded at connection level; " +
-				"(stream-id) a stream is created and maxStreamID raised only under odd id, id > maxStreamID, not in GOAWAY, each violated test returns an error, the handler is started only under curOpenStreams <= advMaxStreams, RST_STREAM on an idle stream is a connection error; " +
+				"(stream-id) a stream is created and maxStreamID raised only under odd id, id > maxStreamID, not in GOAWAY, each violated test returns an error, every return of processSynStream reached with the id tests passed - success, refused request, too many streams - has gone through the store that raises maxStreamID to the id on every feasible path (id-consumed: an id is used up once validated, whatever happens to the request), the handler is started only under curOpenStreams <= advMaxStreams, RST_STREAM on an idle stream is a connection error; " +
 				"(data-state, body-invariant) DATA is taken/written only for a stream found in the table in state open, every other case returns a StreamError, and every stream that stays registered in state open has its body pipe stored; " +
 				"(window-size-range) the 32-bit SETTINGS_INITIAL_WINDOW_SIZE and WINDOW_UPDATE delta are range-limited before conversion to int32; " +
 				"(affinity) functions asserting serveG.Check() are unreachable from go statements, timer callbacks and the exported/handler-facing API except through serverConn.serve, functions asserting CheckNotOn() are unreachable from serve; " +
 				"(single-writer) frames are written only by writeFrames, fed only by startFrameWrite under the writingFrame flag; (queue-mutators) the per-stream queue is mutated only by push/shift/forgetStream; " +
 				"(panic-census) explicit panics and unchecked type assertions reachable from the serve loop are exactly the reviewed ones. " +
 				"Not covered: sums of windows over long histories, refunds for DATA dropped on unknown/closed streams or left unread in a closed pipe, scheduling order, frame-sequence semantics, index arithmetic panics.",
-			RuleText:    "obligations = each flow.take call, each writer of flow.n, each flow.add call, each window-update call in the refund chain, each guard of stream creation, each DATA acceptance guard, each serve-only / not-serve function, each frame-writer site, each function with explicit panics on the serve path",
+			RuleText:    "obligations = each flow.take call, each writer of flow.n, each flow.add call, each window-update call in the refund chain, each guard of stream creation, each return of processSynStream behind the id tests (id recorded), each DATA acceptance guard, each serve-only / not-serve function, each frame-writer site, each function with explicit panics on the serve path",
 			Assumptions: []string{"callbacks enter bfe_spdy from other packages only through exported functions, exported methods and interface methods (treated as non-serve roots)", "gotrack.GoroutineLock.Check/CheckNotOn are the affinity assertions"},
 		},
 		Run: runC40,
@@ -57,6 +57,59 @@ func init() {
 			{Name: "second-frame-writer", File: "bfe_spdy/server_conn.go", Old: "func (sc *serverConn) Flush() error {\n	return sc.bw.Flush()", New: "func (sc *serverConn) Flush() error {\n	sc.framer.WriteFrame(&PingFrame{Id: 2})\n	return sc.bw.Flush()", Expect: "single-writer|WriteFrame@serverConn.Flush"},
 			{Name: "writing-flag-check-dropped", File: "bfe_spdy/server_conn.go", Old: "	if sc.writingFrame {\n		panic(\"internal error: can only be writing one frame at a time\")\n	}\n", New: "", Expect: "single-writer|send"},
 			{Name: "window-delta-mask-dropped", File: "bfe_spdy/frame_read.go", Old: "	frame.DeltaWindowSize = frame.DeltaWindowSize & 0x7fffffff\n", New: "", Expect: "window-size-range|WindowUpdateFrame.read"},
+			{Name: "stream-id-recorded-only-for-open-streams", File: "bfe_spdy/server_process_frame.go", Old: "	if id > sc.maxStreamID {\n		sc.maxStreamID = id\n	}\n", New: "	if id > sc.maxStreamID && !f.StreamEnded() {\n		sc.maxStreamID = id\n	}\n", Expect: "stream-id|processSynStream:id-consumed"},
+			{Name: "stream-id-recorded-after-max-streams-check", File: "bfe_spdy/server_process_frame.go", Old: `	if id > sc.maxStreamID {
+		sc.maxStreamID = id
+	}
+	st := &stream{
+		id:     id,
+		state:  stateOpen,
+		weight: f.Priority,
+	}
+	if f.StreamEnded() {
+		st.state = stateHalfClosedRemote
+	}
+	st.cw.Init()
+
+	st.flow.conn = &sc.flow // link to conn-level counter
+	st.flow.add(sc.initialWindowSize)
+	st.inflow.conn = &sc.inflow      // link to conn-level counter
+	st.inflow.add(initialWindowSize) // TODO: update this when we send a higher initial window size in the initial settings
+
+	sc.streams[id] = st
+	sc.curOpenStreams++
+	if sc.curOpenStreams > sc.advMaxStreams {
+		state.SpdyErrMaxStreamPerConn.Inc(1)
+		return fmt.Errorf("user-agent[%s] curOpenStreams[%d] exceeds maxCurStreams[%d]",
+			f.Headers.Get("user-agent"), sc.curOpenStreams, sc.advMaxStreams)
+	}
+`, New: `	st := &stream{
+		id:     id,
+		state:  stateOpen,
+		weight: f.Priority,
+	}
+	if f.StreamEnded() {
+		st.state = stateHalfClosedRemote
+	}
+	st.cw.Init()
+
+	st.flow.conn = &sc.flow // link to conn-level counter
+	st.flow.add(sc.initialWindowSize)
+	st.inflow.conn = &sc.inflow      // link to conn-level counter
+	st.inflow.add(initialWindowSize) // TODO: update this when we send a higher initial window size in the initial settings
+
+	sc.streams[id] = st
+	sc.curOpenStreams++
+	if sc.curOpenStreams > sc.advMaxStreams {
+		state.SpdyErrMaxStreamPerConn.Inc(1)
+		return fmt.Errorf("user-agent[%s] curOpenStreams[%d] exceeds maxCurStreams[%d]",
+			f.Headers.Get("user-agent"), sc.curOpenStreams, sc.advMaxStreams)
+	}
+	if id > sc.maxStreamID {
+		sc.maxStreamID = id
+	}
+`, Expect: "stream-id|processSynStream:id-consumed:return#1"},
+			{Name: "silent-stream-id-recorded-unconditionally-after-alloc", File: "bfe_spdy/server_process_frame.go", Old: "	if id > sc.maxStreamID {\n		sc.maxStreamID = id\n	}\n	st := &stream{\n		id:     id,\n		state:  stateOpen,\n		weight: f.Priority,\n	}\n", New: "	st := &stream{\n		id:     id,\n		state:  stateOpen,\n		weight: f.Priority,\n	}\n	sc.maxStreamID = id\n", Silent: true},
 			{Name: "silent-receiver-renamed", File: "bfe_spdy/server_flow_control.go", Old: "func (sc *serverConn) noteBodyRead(st *stream, n int) {\n	sc.serveG.Check()\n	sc.sendWindowUpdate(nil, n) // conn-level\n	if st.state != stateHalfClosedRemote && st.state != stateClosed {\n		// Don't send this WINDOW_UPDATE if the stream is closed\n		// remotely.\n		sc.sendWindowUpdate(st, n)\n	}\n}", New: "func (conn *serverConn) noteBodyRead(s *stream, consumed int) {\n	conn.serveG.Check()\n	conn.sendWindowUpdate(nil, consumed)\n	if s.state == stateHalfClosedRemote || s.state == stateClosed {\n		return\n	}\n	conn.sendWindowUpdate(s, consumed)\n}", Silent: true},
 			{Name: "silent-inflow-check-operands-swapped", File: "bfe_spdy/server_process_frame.go", Old: "		if int(st.inflow.available()) < len(data) {", New: "		if len(data) > int(st.inflow.available()) {", Silent: true},
 			{Name: "silent-refund-with-logging-and-local", File: "bfe_spdy/server_flow_control.go", Old: "	sc.sendWindowUpdate(nil, n) // conn-level\n", New: "	consumed := n\n	println(\"refund\", consumed)\n	sc.sendWindowUpdate(nil, consumed) // conn-level\n", Silent: true},
@@ -755,6 +808,28 @@ func runC40(c *core.Ctx) {
 					c.Check("stream-id", fmt.Sprintf("maxStreamID-writer#%d", i), st.Store.Pos(), ok, "sc.maxStreamID is written in "+spdyShort(st.Fn)+" with "+core.Render(st.Store.Val)+"; it may only be raised to an accepted odd id in processSynStream")
 				}
 				c.Check("stream-id", "maxStreamID-raised", mu.Pos(), i > 0, "sc.maxStreamID is never updated: the monotonicity test compares against a constant")
+				// id-consumed (x_s_spdy2.go): the id is recorded on every path that
+				// leaves the function with the id tests passed
+				accepted := func(b *ssa.BasicBlock) bool {
+					sf, _ := gather(b)
+					return sf.parity && (sf.gt || (sf.ge && sf.ne))
+				}
+				isMaxStore := func(in ssa.Instruction) bool {
+					st, ok := spdyFieldStore(in, mf)
+					return ok && rs(st.Val) == id
+				}
+				infeasible := func(from *ssa.BasicBlock, succ int) bool {
+					ifi, ok := from.Instrs[len(from.Instrs)-1].(*ssa.If)
+					if !ok || len(from.Succs) != 2 || from.Succs[0] == from.Succs[1] || !accepted(from) {
+						return false
+					}
+					cmp, ok := spdyNorm(ifi.Cond, succ == 0, func(x ssa.Value) bool { return core.Render(x) == id })
+					if !ok || !strings.HasSuffix(rs(cmp.Other), ".maxStreamID") {
+						return false
+					}
+					return cmp.Op == token.LEQ || cmp.Op == token.LSS || cmp.Op == token.EQL
+				}
+				c40IDConsumed(c, f, accepted, isMaxStore, infeasible)
 			}
 			// handler start under the concurrency limit
 			started := false
@@ -826,7 +901,7 @@ func runC40(c *core.Ctx) {
 			c.Check("stream-id", "processResetStream:idle", f.Pos(), false, "no branch for RST_STREAM on an idle stream")
 		}
 	}
-	c.Min("stream-id", 9)
+	c.Min("stream-id", 12)
 
 	// ---- data-state ------------------------------------------------------------
 	if pd != nil {
